@@ -203,7 +203,6 @@ theorem eof_any_offset_filter_e2e {p : Preamble} {recs srecs drecs : List Rec} {
   have hlen7 : 2 * t.input.length + 7 ≤ 100000 := by omega
   have hO5 : owedStream p.id 5 mc srecs = owedStream p.id 5 mc body := by
     rw [hsr, owedStream_append, owedStream_term p.id 5 mc _ rfl, List.append_nil]
-  set_option maxRecDepth 2000 in
   by_cases h1 : k < (serAll recs).length
   · obtain ⟨c', hrun, hph, _, hhs, _, hlog, hpre⟩ := eof_in_preamble_e2e_partial (p := p) (recs := recs)
       (serAll srecs ++ serAll drecs) b mc k [(canonicalF data st, true)] t fuel hwf hpairs hnoise h1 hin hb hem hfuel
@@ -274,5 +273,29 @@ theorem eof_any_offset_filter_e2e {p : Preamble} {recs srecs drecs : List Rec} {
         refine ⟨c', O1, O2, hrun, hph, hO, ⟨_, ho.log, List.prefix_refl _⟩, by rw [ho.one_handler.1]; omega,
           fun h => absurd h h1, fun _ => ho.one_handler, fun _ h => absurd h h2, fun _ h => absurd h h3,
           fun _ => ⟨ho.read_content _ (by simp), ho.read_content _ (by simp), ho.log⟩⟩
+
+/-! ## Non-vacuity -/
+
+/-- one byte short of the end of the Data body of `C07E.Example`'s Filter wire (inside the `"xyz"` record) -/
+def exKF : Nat := (serAll C07E.Example.recsF).length + (serAll C07E.Example.fS).length +
+  (serAll C07E.Example.fD.dropLast).length - 1
+
+def exTF : Transport :=
+  { input := (serAll C07E.Example.recsF ++ (serAll C07E.Example.fS ++ serAll C07E.Example.fD)).take exKF,
+    endMode := .eof, rd := [.n 20, .pending, .n 30, .n 1, .pending, .all], wr := [.n 5, .pending, .all], fl := [] }
+
+/-- The Filter run of `C07E.Example` with the input cut inside the Data record: Stdin `"AB"` is read
+completely, the Data read fails with `UnexpectedEof` after a prefix of `"xyz"`. -/
+example : ∃ c' C2, runTask 20 (connS 64 10 exTF [(canonicalF [33] (.complete 3), true)]) 0 none = (c', "RET") ∧
+    c'.phase = .finished ∧ hsCount c'.env.tr.events = 1 ∧ readEvent [65, 66] ∈ c'.env.tr.events ∧
+    C2 <+: [120, 121, 122] ∧ readEofEvent C2 ∈ c'.env.tr.events := by
+  obtain ⟨c', O1, O2, h1, h2, _, _, _, _, h6, _, h8, _⟩ := eof_any_offset_filter_e2e (p := C07E.Example.preF)
+    (recs := C07E.Example.recsF) (srecs := C07E.Example.fS) (drecs := C07E.Example.fD) (content := [65, 66])
+    (content2 := [120, 121, 122]) (b := 64) (mc := 10) (data := [33]) (st := .complete 3) (t := exTF) (fuel := 20) exKF
+    C07E.Example.recsF_wf rfl (fun q hq => by cases hq) (C07E.Example.recsF_fits _) C07E.Example.fS_ok
+    (C07E.Example.no_getValues_fits (by decide)) C07E.Example.fD_ok C07E.Example.fD_fits rfl
+    (Or.inl (by decide +kernel)) ⟨by decide, by decide, rfl, by decide⟩ rfl rfl (by decide) (by decide +kernel) (by decide)
+  obtain ⟨hr1, C2, hC2, hre, _⟩ := h8 (by decide +kernel) (by decide +kernel)
+  exact ⟨c', C2, h1, h2, (h6 (by decide +kernel)).1, hr1, hC2, hre⟩
 
 end Fcgi.C12E
